@@ -93,9 +93,9 @@ TraceRan == /\ At("Ran") /\ KnownType /\ ph \in {"open", "ran"} /\ ms = <<>>
 TracePair == /\ At("Pair") /\ KnownType /\ ph \in {"open", "ran"} /\ ms = <<>>
              /\ Has(e, "out") /\ e.out \in Finished
              /\ ph' = "ran" /\ UNCHANGED <<ms, cur>>
-\* a reported race is explainable only when it is not between two point operations
+\* a reported race is explainable only when it is not between two point operations (or batches of point operations)
 TraceRace == /\ At("Race") /\ ph = "ran" /\ Has(e, "a") /\ Has(e, "b")
-             /\ ~(IsPoint(e.a) /\ IsPoint(e.b))
+             /\ ~(IsJudged(e.a) /\ IsJudged(e.b))
              /\ UNCHANGED <<ms, cur, ph>>
 TraceDone == /\ At("Done")
              /\ \/ ph = "open" /\ ms # <<>> /\ cur = Len(ms)
